@@ -274,6 +274,9 @@ type C15StrCase struct {
 	Arg  string `json:"arg"` // hello | verify | from | to | envid | auth | orcpt-rfc822 | orcpt-utf8 | sasl-mech
 	S    string `json:"s"`
 	Show string `json:"show"`
+	// Fresh: the call is the first one on the client (no hello yet): a value that cannot be sent is refused before
+	// anything - the greeting included - is written
+	Fresh bool `json:"fresh,omitempty"`
 }
 
 type mechClient struct{ mech string }
@@ -292,7 +295,7 @@ func evalC15Str(c C15StrCase) *h.Finding {
 			cl := cs.Client
 			var err error
 			before := 0
-			if c.Arg != "hello" {
+			if c.Arg != "hello" && !c.Fresh {
 				if err := cl.Noop(); err != nil {
 					f = h.F("c15-harness", "%s: Noop: %v", desc, err)
 					return
@@ -326,9 +329,21 @@ func evalC15Str(c C15StrCase) *h.Finding {
 				err = cl.Rcpt("r@b.example", &smtp.RcptOptions{OriginalRecipientType: smtp.DSNAddressTypeUTF8, OriginalRecipient: c.S})
 			case "sasl-mech":
 				err = cl.Auth(mechClient{mech: c.S})
+			case "notify":
+				err = cl.Rcpt("r@b.example", &smtp.RcptOptions{Notify: []smtp.DSNNotify{smtp.DSNNotify(c.S)}})
+			case "notify-kw":
+				// the hostile octets around valid keywords
+				err = cl.Rcpt("r@b.example", &smtp.RcptOptions{Notify: []smtp.DSNNotify{smtp.DSNNotify("SUCCESS" + c.S), smtp.DSNNotify(c.S + "FAILURE")}})
 			}
 			h.Wait()
 			delta := cs.ToServer()[before:]
+			if c.Fresh {
+				if rawFresh := strings.ContainsAny(c.S, "\r\n") && (c.Arg == "verify" || c.Arg == "from"); rawFresh && (err == nil || len(delta) != 0) {
+					f = h.F("c15-cannot-fit-not-refused", "%s as the first call on the client: a value with CR/LF must give a local error with NOTHING written; returned %v, wrote %q", desc, err, delta)
+					return
+				}
+				delta = bytes.TrimPrefix(delta, []byte("EHLO localhost\r\n")) // a first call says hello first
+			}
 			if m := oneLine(delta); m != "" {
 				f = h.F("c15-second-line", "%s: the call %s (returned %v)", desc, m, err)
 				return
@@ -398,7 +413,7 @@ func C15(tier string) int {
 		strLen = 5
 	}
 	alpha := []byte{'\r', '\n', 0, ' ', '<', '>', 'a'}
-	run.Rule = fmt.Sprintf("(a) ALL 2^7 subsets of advertised extensions %v x ALL 2^6 subsets of MailOptions fields (Auth as an identity and as the empty string) (and 2^3 of RcptOptions) against a scripted server, judged after the first EHLO and after a second EHLO (Reset) that advertises a different subset (complement and shifted subsets), and against a server that refuses EHLO so that the client falls back to HELO (before or after a normal EHLO); (b) ALL strings of <=%d octets over {CR,LF,NUL,SP,'<','>','a'} in every string-typed argument (Hello, Verify, Mail from, Rcpt to, EnvelopeID, Auth, ORCPT rfc822/utf-8, SASL mechanism name). Octets written by each call are taken from the raw connection log. Distinct by construction; non-trivial = a parameter is requested that is not offered / the string contains CR, LF or NUL. Oracle: <=1 CRLF-terminated line per call and no bare CR/LF; CR/LF in an argument => local error, zero octets; every parameter on the wire is in the most recent EHLO reply; REQUIRETLS/SMTPUTF8 requested but not offered => local error.", c15Exts, strLen)
+	run.Rule = fmt.Sprintf("(a) ALL 2^7 subsets of advertised extensions %v x ALL 2^6 subsets of MailOptions fields (Auth as an identity and as the empty string) (and 2^3 of RcptOptions) against a scripted server, judged after the first EHLO and after a second EHLO (Reset) that advertises a different subset (complement and shifted subsets), and against a server that refuses EHLO so that the client falls back to HELO (before or after a normal EHLO); (b) ALL strings of <=%d octets over {CR,LF,NUL,SP,'<','>','a'} in every string-typed argument (Hello, Verify, Mail from, Rcpt to, EnvelopeID, Auth, ORCPT rfc822/utf-8, SASL mechanism name, NOTIFY elements alone and around valid keywords), Verify/Mail also as the very first call on the client (nothing, not even the greeting, may be written for a value with CR/LF). Octets written by each call are taken from the raw connection log. Distinct by construction; non-trivial = a parameter is requested that is not offered / the string contains CR, LF or NUL. Oracle: <=1 CRLF-terminated line per call and no bare CR/LF; CR/LF in an argument => local error, zero octets; every parameter on the wire is in the most recent EHLO reply; REQUIRETLS/SMTPUTF8 requested but not offered => local error.", c15Exts, strLen)
 	var ecases []C15ExtCase
 	for m1 := 0; m1 < 128; m1++ {
 		for opts := 0; opts < 64; opts++ {
@@ -432,8 +447,11 @@ func C15(tier string) int {
 	run.Outcome("ext-ok")
 	var scases []C15StrCase
 	enumStrings(alpha, strLen, func(s []byte) {
-		for _, a := range []string{"hello", "verify", "from", "to", "envid", "auth", "orcpt-rfc822", "orcpt-utf8", "sasl-mech"} {
+		for _, a := range []string{"hello", "verify", "from", "to", "envid", "auth", "orcpt-rfc822", "orcpt-utf8", "sasl-mech", "notify", "notify-kw"} {
 			scases = append(scases, C15StrCase{Arg: a, S: string(s)})
+		}
+		for _, a := range []string{"verify", "from", "envid", "auth"} {
+			scases = append(scases, C15StrCase{Arg: a, S: string(s), Fresh: true})
 		}
 	})
 	h.ParallelFor(len(scases), func(i int) {
